@@ -19,9 +19,10 @@ if [ $res_apply = ok ]; then
   fi
   cp "$dst/demo_test.go" "$wt/$place"
   pkg="./$(dirname "$place")/"
-  (cd "$wt" && go test -vet=off -count=1 "$pkg" >/tmp/seedv/demo_with.log 2>&1) && res_demo_with=pass || res_demo_with=fail
+  tests=$(grep -o '^func Test[A-Za-z0-9_]*' "$dst/demo_test.go" | sed 's/func //' | paste -sd'|')
+  (cd "$wt" && go test -vet=off -count=1 -timeout 180s -run "^($tests)\$" "$pkg" >/tmp/seedv/demo_with.log 2>&1) && res_demo_with=pass || res_demo_with=fail
   git -C "$wt" checkout -q -- . 
-  (cd "$wt" && go test -vet=off -count=1 "$pkg" >/tmp/seedv/demo_without.log 2>&1) && res_demo_without=pass || res_demo_without=fail
+  (cd "$wt" && go test -vet=off -count=1 -timeout 180s -run "^($tests)\$" "$pkg" >/tmp/seedv/demo_without.log 2>&1) && res_demo_without=pass || res_demo_without=fail
 fi
 git -C /repo worktree remove --force "$wt"
 # run the check against the change in /repo itself
